@@ -143,7 +143,8 @@ def host_main(case_path, out_path):
         res['created'] = 'ok'
         try:
             # close_timeout=None: clean-up waits as long as it takes (only histories without stuck workers use it)
-            pool = Pool(TG.pool_target, close_timeout=None if case.get('ctimeout') == 'none' else CLOSE_T, name='lifepool')
+            pool = Pool(TG.pool_target, close_timeout=None if case.get('ctimeout') == 'none' else CLOSE_T, name='lifepool',
+                        retry=case.get('retry', 'T') != 'F')
         except Exception as e:  # noqa
             res['created'] = 'raised'
             res['created_exc'] = '%s: %s' % (type(e).__name__, e)
@@ -156,6 +157,7 @@ def host_main(case_path, out_path):
         stick_n = [0]
         closed = [False]
         prev_unreg = [0]
+        recorded = set()       # workers whose death an earlier run has met
         alive_reg = [0]
 
         def hostkw(kind):
@@ -219,7 +221,8 @@ def host_main(case_path, out_path):
 
         for op in ops:
             name, _, arg = op.partition(':')
-            st = {'op': name, 'outcome': 'ok', 'closing': 'F', 'extra': 0, 'dead_got_work': 0, 'restarted_no_work': 0, 'spoiled': 0}
+            st = {'op': name, 'outcome': 'ok', 'closing': 'F', 'extra': 0, 'dead_got_work': 0, 'restarted_no_work': 0, 'spoiled': 0,
+                  'missing': 0, 'fresh_dead': 0}
             if name in ('add', 'attach'):
                 kind = arg
                 if name == 'add':
@@ -273,6 +276,8 @@ def host_main(case_path, out_path):
                     enq.append((id(wk), inp[0] if inp else None))
                     return True
                 live_before = [w for w in ws if 'obj' in w and os_alive(w) and any(o is w['obj'] for o in pool.workers)]
+                st['fresh_dead'] = len([w for w in ws if 'obj' in w and any(o is w['obj'] for o in pool.workers)
+                                        and not os_alive(w) and id(w['obj']) not in recorded])
                 oc, r = bounded(lambda: pool.run(iter(inputs), enqueue_fn=efn))
                 st['outcome'] = oc
                 got = []
@@ -295,6 +300,8 @@ def host_main(case_path, out_path):
                     st['restarted_no_work'] = len([x for x in live_restarted if x not in enq_w])
                     if r is not None and left:
                         st['missing'] = len(left)
+                if not closed[0]:
+                    recorded.update(id(w['obj']) for w in ws if 'obj' in w and any(o is w['obj'] for o in pool.workers) and not os_alive(w))
                 if (name == 'run' and oc == 'raised' and not closed[0] and live_before and all(os_alive(w) for w in live_before)):
                     st['spoiled'] = 1
                 restarted.clear()
@@ -557,20 +564,25 @@ def _interesting(ops):
 def _select(tier, rng, free4, sim6, remote):
     plans, seen = [], set()
 
-    def add(force, ops, stickmode='swallow', ctimeout='small'):
+    def add(force, ops, stickmode='swallow', ctimeout='small', retry='T'):
         if ctimeout == 'none' and any(o.startswith('stick') or o == 'runl' for o in ops):
             ctimeout = 'small'              # close_timeout=None would wait for a stuck worker forever
-        key = (force, tuple(ops), stickmode, ctimeout)
+        key = (force, tuple(ops), stickmode, ctimeout, retry)
         if key in seen:
             return
         seen.add(key)
-        plans.append({'id': 'h%d' % len(plans), 'force': force, 'ops': list(ops), 'stickmode': stickmode, 'ctimeout': ctimeout})
+        plans.append({'id': 'h%d' % len(plans), 'force': force, 'ops': list(ops), 'stickmode': stickmode, 'ctimeout': ctimeout, 'retry': retry})
     for f, ops in CURATED:
         add(f, ops)
     # Pool(close_timeout=None): wait as long as it takes
     add('none', ['add:process', 'add:thread', 'run', 'close'], ctimeout='none')
     add('none', ['add:process', 'run', 'kill:1', 'run', 'exc'], ctimeout='none')
     add('false', ['add:thread', 'add:process', 'runp', 'restart', 'run', 'terminate'], ctimeout='none')
+    # Pool(retry=False): a death recorded by one run, then further runs without a restart
+    add('none', ['add:process', 'add:process', 'runp', 'run', 'run', 'close'], retry='F')
+    add('none', ['add:thread', 'add:process', 'add:process', 'runp', 'run', 'close'], retry='F')
+    add('none', ['add:process', 'add:process', 'runl', 'run', 'close'], retry='F')
+    add('none', ['add:process', 'add:thread', 'run', 'kill:1', 'run', 'run'], retry='F')
     add('none', ['add:process', 'add:thread', 'stick:1', 'close'], 'sleep')
     add('none', ['add:thread', 'add:process', 'stick:2', 'exc'], 'sleep')
     add('none', ['add:process', 'add:process', 'stick:1', 'stick:2', 'closeint', 'terminate'], 'sleep')
@@ -584,9 +596,9 @@ def _select(tier, rng, free4, sim6, remote):
     n4, n6 = (60, 25) if tier == 'quick' else (1200, 500)
     # the enumeration is done for force = none (the histories do not depend on it); one in four is replayed with force=False
     for f, ops in pool4[:n4]:
-        add(rng.choice(['none', 'none', 'none', 'false']), ops, rng.choice(['swallow', 'swallow', 'sleep']), rng.choice(['small', 'small', 'small', 'none']))
+        add(rng.choice(['none', 'none', 'none', 'false']), ops, rng.choice(['swallow', 'swallow', 'sleep']), rng.choice(['small', 'small', 'small', 'none']), rng.choice(['T', 'T', 'T', 'T', 'F']))
     for f, ops in pool6[:n6]:
-        add(rng.choice(['none', 'none', 'none', 'false']), ops, rng.choice(['swallow', 'swallow', 'sleep']), rng.choice(['small', 'small', 'small', 'none']))
+        add(rng.choice(['none', 'none', 'none', 'false']), ops, rng.choice(['swallow', 'swallow', 'sleep']), rng.choice(['small', 'small', 'small', 'none']), rng.choice(['T', 'T', 'T', 'T', 'F']))
     return plans
 
 
@@ -625,11 +637,11 @@ def _run_hosts(cases, scratch, par=12):
     return outs
 
 
-_KEYS = ('op', 'outcome', 'closing', 'alive_owned', 'live_unreg', 'extra', 'dead_got_work', 'restarted_no_work', 'spoiled')
+_KEYS = ('op', 'outcome', 'closing', 'alive_owned', 'live_unreg', 'extra', 'dead_got_work', 'restarted_no_work', 'spoiled', 'missing', 'fresh_dead')
 
 
 def _record(case, out):
-    return {'id': case['id'], 'scn': {'force': case['force'], 'ctimeout': case.get('ctimeout', 'small'), 'ops': case['ops'],
+    return {'id': case['id'], 'scn': {'force': case['force'], 'ctimeout': case.get('ctimeout', 'small'), 'retry': case.get('retry', 'T'), 'ops': case['ops'],
                                       'stickmode': case.get('stickmode', 'swallow')},
             'obs': {'created': out.get('created', 'ok'), 'steps': [{k: s[k] for k in _KEYS} for s in out['steps']]}}
 
@@ -678,6 +690,7 @@ def run(prop, tier, replay=None):
         'whatif_closedonlywait': dict(cfg=_mc_cfg(MaxOps='4', ClosedOnlyWait='TRUE'), workers=2, expect='invariant:Inv_AllDead', label='what-if: _close only waits for a worker whose end a run has recorded (must be rejected)'),
         'whatif_staleoverwrite': dict(cfg=_mc_cfg(MaxOps='4', StaleOverwrite='TRUE'), workers=2, expect='invariant:Inv_RunIsolated', label='what-if: the in-flight count of abandoned runs is overwritten, not accumulated (must be rejected)'),
         'whatif_nonetimeout': dict(cfg=_mc_cfg(MaxOps='3', NoneTimeoutRejected='TRUE'), workers=2, expect='invariant:Inv_Configurable', label='what-if: the constructor refuses close_timeout=None (must be rejected)'),
+        'whatif_nodeadskip': dict(cfg=_mc_cfg(MaxOps='4', NoDeadSkip='TRUE', Plans='FreeNoRetry'), workers=2, expect='invariant:Inv_RunIsolated', label='what-if: first_enqueue does not skip workers recorded dead, retry off (must be rejected)'),
         'whatif_norekey': dict(cfg=_mc_cfg(MaxOps='4', NoRekey='TRUE'), workers=2, expect='invariant:Inv_RunIsolated', label='what-if: restart_workers does not re-key (must be rejected)'),
     }
     for w in ('W_ClosedWithStuck', 'W_RestartAfterDeath', 'W_DupRaised', 'W_RunAfterPoison', 'W_ForceFalseSurvivor', 'W_InterruptedStuck', 'W_RunInterrupted', 'W_GentleRestartFails', 'W_LingerAfterFailure', 'W_TwoAbandonedRuns'):
@@ -717,7 +730,7 @@ def run(prop, tier, replay=None):
     plans = _select(tier, rng, free4, sim6, remote)
     pf = os.path.join(scratch, 'plans.json')
     with open(pf, 'w') as f:
-        json.dump([{k: p[k] for k in ('id', 'force', 'ctimeout', 'ops')} for p in plans], f)
+        json.dump([{k: p[k] for k in ('id', 'force', 'ctimeout', 'retry', 'ops')} for p in plans], f)
     allowed = {}
     for label, fx in (('pre', 'FixNone'), ('fix', 'FixAll')):
         c = _dump_cfg(MaxOps='8', MaxW='4', Fix=fx, Kinds=kinds, Plans='PlanSet', Free='FALSE')
@@ -729,7 +742,7 @@ def run(prop, tier, replay=None):
         for x in rp.tags.get('PATH', []):
             allowed[label].setdefault(x[0], set()).add(x[3])
     nopre = [p['id'] for p in plans if p['id'] not in allowed['pre']]
-    ncur = len(CURATED) + 6 + (len(CURATED_REMOTE) if remote else 0)
+    ncur = len(CURATED) + 10 + (len(CURATED_REMOTE) if remote else 0)
     if any(int(i[1:]) < ncur for i in nopre):
         raise MachineryError('curated histories that are not behaviours of PoolLife.tla: %s' % [p['ops'] for p in plans if p['id'] in nopre][:3])
     # a sampled history was enumerated for force = none; with force=False it may not be a behaviour (run would wait for a
@@ -762,7 +775,7 @@ def run(prop, tier, replay=None):
         if k == 0:
             violations.append(Violation('C09', 'C09|%s|force=%s|close_timeout=%s|%s' % (name, case['force'], case.get('ctimeout'), out.get('created_exc', '')[:60]),
                                         '%s fails: Pool(close_timeout=%s) cannot be constructed: %s' % (name, 'None' if case.get('ctimeout') == 'none' else CLOSE_T, out.get('created_exc')),
-                                        {k2: case.get(k2) for k2 in ('force', 'ops', 'stickmode', 'ctimeout')}))
+                                        {k2: case.get(k2) for k2 in ('force', 'ops', 'stickmode', 'ctimeout', 'retry')}))
             continue
         s = out['steps'][k - 1]
         prev = [x.partition(':')[0] for x in case['ops'][:k - 1]]
@@ -778,15 +791,15 @@ def run(prop, tier, replay=None):
         if any(x in ('closeint', 'termint') for x in prev):
             ctx.append('after-interrupted-close')
         kinds_ = sorted(set(o.partition(':')[2] for o in case['ops'] if o.startswith(('add:', 'attach:'))))
-        sig = 'C09|%s|op=%s|ctx=%s|force=%s|outcome=%s|alive_owned=%s|live_unreg=%s|extra=%d|deadwork=%d|norestartwork=%d|spoiled=%d' % (
-            name, s['op'], '+'.join(ctx) or 'plain', case['force'], s['outcome'],
+        sig = 'C09|%s|op=%s|ctx=%s|force=%s|retry=%s|outcome=%s|alive_owned=%s|live_unreg=%s|extra=%d|deadwork=%d|norestartwork=%d|spoiled=%d|missing=%d' % (
+            name, s['op'], '+'.join(ctx) or 'plain', case['force'], case.get('retry', 'T'), s['outcome'],
             '0' if not s['alive_owned'] else 'unregistered' if not s.get('alive_reg') else 'registered' if s.get('alive_reg') == s['alive_owned'] else 'mixed',
-            'some' if s['live_unreg'] else '0', s['extra'], s['dead_got_work'], s['restarted_no_work'], s.get('spoiled', 0))
+            'some' if s['live_unreg'] else '0', s['extra'], s['dead_got_work'], s['restarted_no_work'], s.get('spoiled', 0), s.get('missing', 0))
         what = ('%s fails at step %d (%s) of history %s (force=%s, kinds %s): outcome %s, %d owned process/remote worker(s) alive, %d live process(es) newly outside pool.workers%s, '
-                'extra results %d, dead workers handed work %d, restarted workers without work %d'
+                'extra results %d, missing results %d, dead workers handed work %d, restarted workers without work %d'
                 % (name, k, case['ops'][k - 1], case['ops'], case['force'], kinds_, s['outcome'], s['alive_owned'], s['live_unreg'],
-                   (' ' + str(s.get('unreg_cmds'))) if s.get('unreg_cmds') else '', s['extra'], s['dead_got_work'], s['restarted_no_work']))
-        violations.append(Violation('C09', sig, what, {k2: case.get(k2) for k2 in ('force', 'ops', 'stickmode', 'ctimeout')}))
+                   (' ' + str(s.get('unreg_cmds'))) if s.get('unreg_cmds') else '', s['extra'], s.get('missing', 0), s['dead_got_work'], s['restarted_no_work']))
+        violations.append(Violation('C09', sig, what, {k2: case.get(k2) for k2 in ('force', 'ops', 'stickmode', 'ctimeout', 'retry')}))
 
     # ---- 4. conformance ----
     conf = {'pre': 0, 'fix': 0, 'both': 0, 'neither': 0, 'truncated': 0, 'no_behaviour_of_the_matching_model': 0}
@@ -820,14 +833,14 @@ def run(prop, tier, replay=None):
     ev.cov['rule'] = ('case = (force setting, API history, kind of sticking); histories enumerated by TLC (all %d histories of 4 calls, %d simulated of 6 calls), '
                       'seeded selection of %d plus %d curated; non-trivial = some step had a live process worker or ran/restarted workers'
                       % (len(set(free4)), len(set(sim6)), len(plans) - len(CURATED) - 2 - (len(CURATED_REMOTE) if remote else 0),
-                         len(CURATED) + 6 + (len(CURATED_REMOTE) if remote else 0)))
+                         len(CURATED) + 10 + (len(CURATED_REMOTE) if remote else 0)))
     ev.cov['exhaustive'] = False
     ev.cov['replayed_cases'] = len(records)
     ev.cov['steps_by_op'] = {}
     for r_ in records:
         for s in r_['obs']['steps']:
             ev.cov['steps_by_op'][s['op']] = ev.cov['steps_by_op'].get(s['op'], 0) + 1
-    for rec in records[:2] + records[len(CURATED) + 6:len(CURATED) + 4]:
+    for rec in records[:2] + records[len(CURATED) + 10:len(CURATED) + 4]:
         ev.sample({'scn': rec['scn'], 'obs': rec['obs'], 'model_outcomes_code_as_is': sorted(allowed['pre'].get(rec['id'], ()))[:4]})
     ev.assumptions += ['Pool.run is abstracted to its effect on the bookkeeping; its loop is the subject of Pool.tla (C07/C08)',
                        'worker ids are not reused by the OS within a history (fresh keys); the what-if variant ReuseKeys shows what breaks otherwise',
